@@ -29,6 +29,7 @@ type verifNet struct {
 	Sent       []verifSent
 	MayFail    bool // SendMessage may fail (nondeterministically)
 	Failed     int
+	CtxDead    int // sends abandoned because their context had already ended
 	Protects   []peer.ID
 	Unprotects []peer.ID
 	Delegate   network.Receiver
@@ -47,6 +48,11 @@ func (n *verifNet) SendMessage(ctx context.Context, p peer.ID, m datatransfer.Me
 	if h := n.Hook; h != nil {
 		n.Hook = nil
 		h()
+	}
+	if ctx.Err() != nil {
+		// a real network abandons a send whose context has ended
+		n.CtxDead++
+		return ctx.Err()
 	}
 	if n.MayFail && zz.Bool("net.sendFails") {
 		n.Failed++
